@@ -297,6 +297,23 @@ def rule_construction(rep, pdb):
                 "(a de-duplication keyed on a wrong stride drops distinct entries of tall matrices)", not badc, badc[0] if badc else fn["body"],
                 "calls on the triplet list: %s" % sorted({n.get("name") for n in calls_on}))
         rep.add("lengths/from_triplets", rule, ok, fn["body"], det, where=loc(fn["body"]))
+        # ---- a special case that returns early must build a well-formed matrix too (cols + 1 column starts)
+        ctx_t = Ctx.for_fn(pdb, fn)
+        bad_r = []
+        for x in walk(fn["body"]):
+            if x.get("k") != "Ret" or x.get("e") is None or any(a.get("k") == "Closure" for a in ancestors(x)):
+                continue
+            t_ = ctx_t.term(x["e"])
+            good = False
+            if t_[0] == "call" and str(t_[1]).endswith("::from_vecs") and len(t_) == 7:
+                cs_ = t_[6]
+                good = cs_[0] == "call" and str(cs_[1]).endswith("from_elem") and cs_[2] == num(0) and cs_[3] == lin_add(P(1), num(1)) and t_[2] == P(0) and t_[3] == P(1)
+            elif t_[0] == "call" and str(t_[1]).endswith("Sparse<T>::new") and t_[2:4] == (P(0), P(1)):
+                good = True
+            if not good:
+                bad_r.append(x)
+        rep.add("lengths/from_triplets/early-return", "an early return of from_triplets (a special case for an empty list ..) hands back a matrix with cols + 1 column starts, like every other path",
+                not bad_r, bad_r[0] if bad_r else fn["body"], "early returns not shown to be well-formed: %d" % len(bad_r))
     # ---- col_start_from_index
     fn = pdb.fn("%s::col_start_from_index" % S)
     rule = ("col_start_from_index: zeros(cols+1); counting pass over 0..nonzero increments col_start[col_index[n]]; exclusive prefix sum over 0..cols "
